@@ -18,6 +18,9 @@ CTXA_MACROS = [
     ('many', ['AnyDelimited']),
     ('mmix', ['*', '[', '{', '[', '{']),
     ('mz', []),
+    ('mend', ['m', 's']),               # optional marker as the LAST declared argument
+    ('mtx', [('m', 'text'), 'm']),      # text-mode argument followed by an ordinary one
+    ('mmx', [('m', 'math'), 'm']),      # math-mode argument followed by an ordinary one
 ]
 CTXA_ENVS = [
     ('ea', ['{']),
@@ -35,7 +38,14 @@ def ctx_a(with_unknown=True):
     from pylatexenc.latexnodes import ParsingStateDeltaEnterMathMode
     from pylatexenc.latexnodes.parsers import LatexVerbatimEnvironmentContentsParser
     db = macrospec.LatexContextDb()
-    macros = [macrospec.MacroSpec(n, arguments_spec_list=list(a)) for (n, a) in CTXA_MACROS]
+    from pylatexenc.latexnodes import LatexArgumentSpec, ParsingStateDeltaLeaveMathMode
+
+    def _arg(a):
+        if isinstance(a, tuple):
+            delta = ParsingStateDeltaLeaveMathMode() if a[1] == 'text' else ParsingStateDeltaEnterMathMode()
+            return LatexArgumentSpec(a[0], parsing_state_delta=delta)
+        return a
+    macros = [macrospec.MacroSpec(n, arguments_spec_list=[_arg(x) for x in a]) for (n, a) in CTXA_MACROS]
     envs = [macrospec.EnvironmentSpec(n, arguments_spec_list=list(a)) for (n, a) in CTXA_ENVS]
     envs.append(macrospec.EnvironmentSpec('emath', arguments_spec_list=[],
                                           body_parsing_state_delta=ParsingStateDeltaEnterMathMode()))
@@ -53,6 +63,35 @@ def ctx_a(with_unknown=True):
     return db
 
 
+def ctx_x():
+    """A database derived by extended_with() (so its first category is internally named) that contains an
+    environment whose body extends the context while parsing (definitions local to the body)."""
+    if 'X' in _CACHE:
+        return _CACHE['X']
+    from pylatexenc import macrospec
+    base = macrospec.LatexContextDb()
+    base.add_context_category(
+        'base',
+        macros=[macrospec.MacroSpec('textbf', '{')],
+        environments=[
+            macrospec.EnvironmentSpec(
+                'elist', '',
+                body_parsing_state_delta=macrospec.ParsingStateDeltaExtendLatexContextDb(
+                    extend_latex_context=dict(macros=[macrospec.MacroSpec('xitem', '[')])
+                ),
+            ),
+        ],
+        specials=[macrospec.SpecialsSpec('~')],
+    )
+    base.set_unknown_macro_spec(macrospec.MacroSpec(''))
+    base.set_unknown_environment_spec(macrospec.EnvironmentSpec(''))
+    base.freeze()
+    db = base.extended_with(macros=[macrospec.MacroSpec('pm', '{')])
+    _CACHE['X'] = db
+    _CACHE['Xbase'] = base
+    return db
+
+
 def ctx_d():
     from pylatexenc.latexwalker import get_default_latex_context_db
     if 'D' not in _CACHE:
@@ -67,6 +106,11 @@ def get(name):
         return ctx_a(True)
     if name == 'A0':
         return ctx_a(False)
+    if name == 'X':
+        return ctx_x()
+    if name == 'Xbase':
+        ctx_x()
+        return _CACHE['Xbase']
     raise KeyError(name)
 
 
